@@ -15,6 +15,7 @@ mod rigid;
 mod section;
 mod flatten;
 mod align;
+mod airfoil;
 
 pub struct State {
     pub slots: std::collections::HashMap<String, Box<dyn std::any::Any>>,
@@ -38,6 +39,7 @@ fn dispatch(rec: &Value, st: &mut State) -> Value {
         "section" => section::exec(rec, st),
         "flatten" => flatten::exec(rec, st),
         "align" => align::exec(rec, st),
+        "airfoil" => airfoil::exec(rec, st),
         _ => json!({"unknown_module": true}),
     }
 }
